@@ -184,6 +184,9 @@ func receiveFromTransport(ctx context.Context, c *channel, done chan<- struct{})
 		if err != nil {
 			if ctx.Err() == nil {
 				log.Printf("receiveFromTransport: %v", err)
+				// Nothing will be received on this channel any more (undecodable input, an envelope
+				// over the read limit, a broken connection): it must not go on looking established.
+				_ = c.transport.Close()
 			}
 			return
 		}
